@@ -34,6 +34,7 @@ def run(ctx):
     allscripts = L.pick(s_off, 50 if q else 400, 30 if q else 400, ctx.seed) + L.pick(s_on, 110 if q else 3000, 40 if q else 1500, ctx.seed + 1)
     for i, s in enumerate(allscripts):
         s["index"] = i
+        s["consts"] = dict(s["consts"], Variant=i % 3)   # schema/hour pool slice, see mkBatch/realSig in the driver
     binp = L.build_driver(ctx)
     tp, results = L.run_driver(ctx, binp, allscripts, 60 if q else 1200, True, "c07")
     info = L.judge(ctx, "C07", tp, results, allscripts, False)
